@@ -1,6 +1,7 @@
 SPECIFICATION Spec
 CONSTANT Archives <- MCArchives
 CONSTANT MaxCalls = 3
+CONSTANT WriteGuarded = TRUE
 CONSTANT TestZipResets = TRUE
 INVARIANT Restriction
 INVARIANT Repeatable
